@@ -9,6 +9,7 @@ import (
 	"path/filepath"
 	"sort"
 	"strings"
+	"syscall"
 	"time"
 
 	"verifharness/evid"
@@ -22,7 +23,7 @@ import (
 var fragments = []string{
 	"%token", "%left", "%right", "%nonassoc", "%type", "%union {", "%union", "%{", "%}", "%%", "%prec", "%start",
 	"<", ">", "A", "B", "'a'", "'ab", "'", "\"s\"", "\"", "1", "-", ":", "|", ";", "{x}", "{", "}",
-	"/*", "*/", "//", "\n", "$$", "$1", "$", "@", "\\",
+	"/*", "*/", "//", "\n", "$$", "$1", "$", "@", "\\", "`",
 	// beyond ASCII: an Arabic-Indic digit, a Latin-1 letter, an invalid UTF-8 byte, NUL, carriage return
 	"\u0663", "\u00e9", "\xff", "\x00", "\r",
 }
@@ -66,6 +67,10 @@ type textCase struct {
 	// BigFuel: the text is a grammar that legitimately works up to the 2000-state limit
 	// (quadratic in the number of states): the fuel is a fixed 400 M iterations (the unchanged code needs 16 M)
 	BigFuel bool `json:"big_fuel,omitempty"`
+	// Graph: run the real command-line tool with `-g` (the automaton drawing) on the text. That path
+	// hands the graph text to an external program; waiting for another process burns no fuel, so it
+	// is observed the way the property defines it: completion of the CLI under a generous deadline
+	Graph bool `json:"graph,omitempty"`
 }
 
 // corpusFiles returns the grammar texts used for prefixes and edits.
@@ -99,6 +104,12 @@ func corpusFiles() []gram.Named2 {
 			// the program section is known exactly: everything after the second %% line of the rendering
 			epi := text[strings.LastIndex(text, "\n%%\n")+len("\n%%\n"):] // the harness epilogue has %% only inside a line
 			out = append(out, gram.Named2{Name: "family+actions:" + n.Name, Text: text, Epilogue: epi})
+			if n.Name == "nullable-chain" {
+				// the same file with program text starting on the line of the second %% (legal yacc)
+				at := strings.LastIndex(text, "\n%%\n") + len("\n%%")
+				same := " /* the program section starts on this line */ var sectionLine = 1"
+				out = append(out, gram.Named2{Name: "family+actions:" + n.Name + "/text-on-section-line", Text: text[:at] + same + text[at:], Epilogue: same + "\n" + epi})
+			}
 		}
 	}
 	return out
@@ -194,6 +205,23 @@ func c13Work(w *Worker) {
 	w.Max("phase_fragments_ms", time.Since(t0).Milliseconds())
 	t0 = time.Now()
 	defer func() { w.Max("phase_files_ms", time.Since(t0).Milliseconds()) }()
+	// (4) the drawing option on whole files, small and large (native CLI)
+	graphTexts := corpusFiles()
+	for _, n := range gram.BigFamilies() {
+		graphTexts = append(graphTexts, gram.Named2{Name: "family:" + n.Name, Text: n.Spec.Render()})
+	}
+	graphTexts = append(graphTexts, gram.Named2{Name: "trie-6x4-1557-states", Text: gram.Trie([]string{"TA", "TB", "TC", "TD", "TE", "TF"}, 4).Render()})
+	for _, f := range graphTexts {
+		if strings.HasPrefix(f.Name, "exponential-automaton") {
+			continue // refused at the state limit before anything is drawn
+		}
+		if w.Mine(idx) {
+			c := &textCase{Origin: "graph:" + f.Name, Text: f.Text, Graph: true}
+			w.Begin(idx, c)
+			c13Eval(w, c)
+		}
+		idx++
+	}
 	// (2) prefixes, (3) single edits
 	for _, f := range corpusFiles() {
 		if f.NoEdits {
@@ -240,8 +268,30 @@ func c13Work(w *Worker) {
 	}
 }
 
+// graphDeadline: `generate -g` needs milliseconds on the small files and about a second on the largest
+const graphDeadline = 90 * time.Second
+
+func c13EvalGraph(w *Worker, c *textCase) {
+	w.Count("native_graph_runs", 1)
+	t0 := time.Now()
+	alive, err := nativeRun(w, c.Text, graphDeadline, true)
+	w.Max("native_graph_run_ms", time.Since(t0).Milliseconds())
+	if err != nil {
+		w.Note("INTERNAL: cannot run the native CLI: " + err.Error())
+		return
+	}
+	if alive {
+		w.Violate("C13|hang-with-graph|"+c.Origin, fmt.Sprintf("`yaccgo generate -g` does not finish on %s (%d bytes): still running after %s", c.Origin, len(c.Text), graphDeadline), c,
+			map[string]interface{}{"origin": c.Origin, "path": "generate -g"})
+	}
+}
+
 func c13Eval(w *Worker, c *textCase) {
 	w.Count("evaluations", 1)
+	if c.Graph {
+		c13EvalGraph(w, c)
+		return
+	}
 	fuel := fuelFor(c.Text)
 	if c.BigFuel {
 		fuel = 400_000_000
@@ -310,14 +360,12 @@ var nativeConfirmed int
 // nativeStillRunning runs the real CLI (built without overlay) on text and
 // reports whether it is still running when the deadline expires.
 func nativeStillRunning(w *Worker, text string, d time.Duration) (bool, error) {
-	if nativeBin == "" {
-		bin := filepath.Join(w.Scratch, fmt.Sprintf("yaccgo-native-%d", os.Getpid()))
-		cmd := exec.Command("go", "build", "-o", bin, "./yaccgo")
-		cmd.Dir = repoDir()
-		if out, err := cmd.CombinedOutput(); err != nil {
-			return false, fmt.Errorf("go build: %v %s", err, out)
-		}
-		nativeBin = bin
+	return nativeRun(w, text, d, false)
+}
+
+func nativeRun(w *Worker, text string, d time.Duration, graph bool) (bool, error) {
+	if _, err := nativeCLI(w); err != nil {
+		return false, err
 	}
 	dir, err := os.MkdirTemp(w.Scratch, "native-")
 	if err != nil {
@@ -329,7 +377,50 @@ func nativeStillRunning(w *Worker, text string, d time.Duration) (bool, error) {
 	ctx, cancel := context.WithTimeout(context.Background(), d)
 	defer cancel()
 	// process group + parent-death signal + CPU rlimit: a spinning yaccgo cannot outlive this worker
-	cmd := evid.Guarded(ctx, 40, dir, nil, nativeBin, "generate", "go", in, filepath.Join(dir, "out.go"))
+	args := []string{"generate", "go", in, filepath.Join(dir, "out.go")}
+	if graph {
+		args = []string{"generate", "-g", filepath.Join(dir, "graph.png"), "go", in, filepath.Join(dir, "out.go")}
+	}
+	cmd := evid.Guarded(ctx, int(d.Seconds())+30, dir, nil, nativeBin, args...) // CPU limit beyond the deadline: a spinning run reaches the deadline
+	if graph {
+		// the tool prints the graph text: it goes to a file, never to a pipe that nobody reads
+		if f, err := os.Create(filepath.Join(dir, "stdout")); err == nil {
+			defer f.Close()
+			cmd.Stdout, cmd.Stderr = f, f
+		}
+	}
 	cmd.Run()
 	return ctx.Err() == context.DeadlineExceeded, nil
+}
+
+// nativeCLI builds the real command-line tool (no overlay, no build tag) from
+// the working tree once per run: the workers share one binary in the run's
+// scratch directory, the first one to get the lock builds it.
+func nativeCLI(w *Worker) (string, error) {
+	if nativeBin != "" {
+		return nativeBin, nil
+	}
+	bin := filepath.Join(w.Scratch, "yaccgo-native-shared")
+	lock, err := os.OpenFile(bin+".lock", os.O_CREATE|os.O_RDWR, 0o644)
+	if err != nil {
+		return "", err
+	}
+	defer lock.Close()
+	if err := syscall.Flock(int(lock.Fd()), syscall.LOCK_EX); err != nil {
+		return "", err
+	}
+	defer syscall.Flock(int(lock.Fd()), syscall.LOCK_UN)
+	if _, err := os.Stat(bin); err != nil {
+		tmp := fmt.Sprintf("%s.%d.tmp", bin, os.Getpid())
+		cmd := exec.Command("go", "build", "-o", tmp, "./yaccgo")
+		cmd.Dir = repoDir()
+		if out, err := cmd.CombinedOutput(); err != nil {
+			return "", fmt.Errorf("go build: %v %s", err, out)
+		}
+		if err := os.Rename(tmp, bin); err != nil {
+			return "", err
+		}
+	}
+	nativeBin = bin
+	return bin, nil
 }
